@@ -126,9 +126,32 @@ type concState struct {
 }
 
 type access struct {
-	g     int
-	clock int
-	where string
+	g       int
+	clock   int
+	where   string
+	harness bool // performed by a function of the harness overlay (zz_verif*)
+}
+
+// inHarness: the access is made by harness code (recording backends, model
+// file system, stubs), whose own bookkeeping is not library state.
+func (in *Interp) inHarness(fr *frame) bool {
+	if fr == nil || fr.fn == nil {
+		return false
+	}
+	fn := fr.fn
+	for fn.Parent() != nil {
+		fn = fn.Parent()
+	}
+	if v, ok := in.prog.harnessFn.Load(fn); ok {
+		return v.(bool)
+	}
+	f := in.prog.Prog.Fset.Position(fn.Pos()).Filename
+	if i := strings.LastIndex(f, "/"); i >= 0 {
+		f = f[i+1:]
+	}
+	v := strings.HasPrefix(f, "zz_verif")
+	in.prog.harnessFn.Store(fn, v)
+	return v
 }
 
 func (in *Interp) concInit() {
@@ -203,17 +226,19 @@ func (in *Interp) raceRead(p *Value, fr *frame) {
 		return
 	}
 	g := cs.cur
-	if w, ok := cs.lastW[p]; ok && !g.sees(w) {
+	hn := in.inHarness(fr)
+	if w, ok := cs.lastW[p]; ok && !g.sees(w) && !(hn && w.harness) {
 		in.noteRace("read", w, fr)
 	}
 	rs := cs.lastR[p]
 	for i := range rs {
 		if rs[i].g == g.id {
 			rs[i].clock = g.vc[g.id]
+			rs[i].harness = rs[i].harness && hn
 			return
 		}
 	}
-	cs.lastR[p] = append(rs, access{g: g.id, clock: g.vc[g.id], where: fr.where()})
+	cs.lastR[p] = append(rs, access{g: g.id, clock: g.vc[g.id], where: fr.where(), harness: hn})
 }
 
 func (in *Interp) raceWrite(p *Value, fr *frame) {
@@ -224,16 +249,17 @@ func (in *Interp) raceWrite(p *Value, fr *frame) {
 		return
 	}
 	g := cs.cur
-	if w, ok := cs.lastW[p]; ok && !g.sees(w) {
+	hn := in.inHarness(fr)
+	if w, ok := cs.lastW[p]; ok && !g.sees(w) && !(hn && w.harness) {
 		in.noteRace("write", w, fr)
 	}
 	for _, r := range cs.lastR[p] {
-		if !g.sees(r) {
+		if !g.sees(r) && !(hn && r.harness) {
 			in.noteRace("write", r, fr)
 		}
 	}
 	delete(cs.lastR, p)
-	cs.lastW[p] = access{g: g.id, clock: g.vc[g.id], where: fr.where()}
+	cs.lastW[p] = access{g: g.id, clock: g.vc[g.id], where: fr.where(), harness: hn}
 }
 
 func (in *Interp) noteRace(kind string, prev access, fr *frame) {
